@@ -1,5 +1,6 @@
 (* C05: case type, model observation, specification predicate, verdict. *)
 From LC Require Import Lib.Bytes Lib.Lex Lib.Fields Lib.PathM Model.Resolve Model.Profile Cases.Verdict.
+From LC Require Model.AtomMatch Model.PMSGrammar.   (* qualified use only: slot_comparable, is_pms_version *)
 
 Module C05.
 (* what the implementation did: in process (profile.ReadSystemSet + Add of the user atoms;
@@ -8,22 +9,35 @@ Module C05.
 Record obs := MkObs {
   o_sys : res (list bytes); o_stage : res (list bytes);
   o_bin_sys : res (list bytes); o_bin_stage : res (list bytes);
-  o_bin_stage2 : res (list bytes) }.    (* the same tree built again in the reverse directory-creation order on another file system *)
+  o_bin_stage2 : res (list bytes);      (* the same tree built again in the reverse directory-creation order on another file system *)
+  (* what the implementation's own reading of the database directory produced (round 5b): *)
+  o_listed : list bytes;                (* fs.Readdirnames of var/db/pkg and of every category below it: the entries
+                                           as category/entry, sorted *)
+  o_loaded : list (bytes * (bytes * bytes)) }.
+                                        (* vdb.GetInstalledPackageList: (String(), PackageName(), GetSlot()) of every
+                                           member of the AtomSet it returned, sorted *)
 Record case := MkCase {
   c_root : bytes;                 (* the build root (absolute) *)
   c_fs : pfs;                     (* the profile tree *)
   c_profile : bytes;              (* the profile directory handed to ReadSystemSet *)
   c_dict : dict;                  (* oracle: atom string -> depend.NewDependencyAtom + installed matches *)
   c_atoms : list bytes;           (* -atoms *)
-  c_vdb : list pkg;               (* the installed-package database, sorted by category/name-version *)
-  c_enum : list N;                (* oracle: the order in which the directories were enumerated *)
+  c_vdb : list pkg;               (* the installed-package database AS THE GENERATOR WROTE IT, sorted by
+                                     category/name-version: directory names, the package name (PF without its PMS
+                                     version) and the slot key (SLOT text before "/") are derived by the harness
+                                     from its own input -- tied to PF and to the SLOT text by db_tied below --,
+                                     not by the loader under test (whose reading is the observation o_loaded) *)
+  c_enum : list N;                (* oracle: the ORDER in which the directories were enumerated (a permutation of
+                                     the harness's own directory listing; membership is the observation o_listed) *)
   c_bdeps : bool;                 (* not -nobdeps *)
-  c_complete : bool;              (* every VDB directory is in c_vdb (no two directories with one name and slot) *)
+  c_complete : bool;              (* no two directories of the generated database have one name and slot, none is
+                                     written twice (the harness's own collision check) *)
   c_texts : list (list (option bytes));
                                   (* per package of c_vdb: the texts of BDEPEND, DEPEND, RDEPEND, PDEPEND as they are
                                      on disk -- Some for a file that is a PMS dependency string (its tree in c_vdb
                                      is then the PMS reading of that text, checked by texts_ok below), None for an
                                      absent file or a text outside the grammar *)
+  c_slots : list bytes;           (* per package of c_vdb: the content of its SLOT file as written *)
   c_obs : obs }.
 
 Definition lres_beq (a b : res (list bytes)) : bool :=
@@ -32,12 +46,24 @@ Definition lres_beq (a b : res (list bytes)) : bool :=
   | RFailed, RFailed | RPanic, RPanic | RDiverge, RDiverge => true
   | _, _ => false
   end.
+Definition triple_beq (x y : bytes * (bytes * bytes)) : bool :=
+  beq (fst x) (fst y) && beq (fst (snd x)) (fst (snd y)) && beq (snd (snd x)) (snd (snd y)).
 Definition obs_beq (a b : obs) : bool :=
   lres_beq (o_sys a) (o_sys b) && lres_beq (o_stage a) (o_stage b)
   && lres_beq (o_bin_sys a) (o_bin_sys b) && lres_beq (o_bin_stage a) (o_bin_stage b)
-  && lres_beq (o_bin_stage2 a) (o_bin_stage2 b).
+  && lres_beq (o_bin_stage2 a) (o_bin_stage2 b)
+  && list_beq beq (o_listed a) (o_listed b) && list_beq triple_beq (o_loaded a) (o_loaded b).
 
 (* ------------------------------------------------------------------ the model *)
+(* the loader's result seen from outside: for every directory of the database (in database order) that the
+   AtomSet built by GetInstalledPackageList holds, its String() and the name and grouping key it is held under *)
+Definition aset_entries (s : aset) : list (N * (bytes * bytes)) :=
+  flat_map (fun x => map (fun e => (snd e, (fst x, fst e))) (snd x)) s.
+Definition loaded_view (vdb : list pkg) (s : aset) : list (bytes * (bytes * bytes)) :=
+  flat_map (fun i => match pkg_at vdb i, find (fun t => N.eqb (fst t) i) (aset_entries s) with
+                     | Some p, Some t => [(pkg_str p, snd t)]
+                     | _, _ => []
+                     end) (map N.of_nat (seq 0 (length vdb))).
 Definition model_sys (c : case) : res ued := system_set (c_fs c) (c_dict c) (c_profile c) (c_atoms c).
 Definition model (c : case) : obs :=
   let sys := match model_sys c with
@@ -48,7 +74,9 @@ Definition model (c : case) : obs :=
                | ROk u => stage_set (c_vdb c) (c_enum c) (c_bdeps c) (map snd u)
                | RFailed => RFailed | RPanic => RPanic | RDiverge => RDiverge
                end in
-  MkObs sys stage sys stage stage.
+  MkObs sys stage sys stage stage
+        (listing (c_vdb c) (filter (fun i => memN i (c_enum c)) (map N.of_nat (seq 0 (length (c_vdb c))))))
+        (loaded_view (c_vdb c) (installed (c_vdb c) (c_enum c))).
 
 (* ------------------------------------------------------------------ the specification
    Written from the property text and the stagemaker manual, not from the code. *)
@@ -342,6 +370,16 @@ Definition spec_request (c : case) : option (list atomr) :=
     end
   else None.
 
+(* "the installed packages": the loader returns exactly the packages of the database -- none lost, none
+   invented -- each under its PMS name (PF without the version) and its slot (SLOT without the sub-slot);
+   and the directory enumeration it starts from lists exactly the directories of the database.  Stated
+   against the database the generator wrote, not against anything the loader said. *)
+Definition db_view (vdb : list pkg) : list (bytes * (bytes * bytes)) :=
+  map (fun p => (pkg_str p, (p_pn p, p_slot p))) vdb.
+Definition spec_loader (c : case) (o : obs) : bool :=
+  list_beq beq (o_listed o) (map pkg_str (c_vdb c))
+  && list_beq triple_beq (o_loaded o) (db_view (c_vdb c)).
+
 (* the property on one case *)
 Definition spec (c : case) (o : obs) : bool :=
   spec_sys c (o_sys o) && spec_sys c (o_bin_sys o)
@@ -349,7 +387,9 @@ Definition spec (c : case) (o : obs) : bool :=
   && spec_stage (c_vdb c) (c_bdeps c) (spec_request c) (o_bin_stage o)
   && lres_beq (o_stage o) (o_bin_stage o)
   (* the result does not depend on the directory-enumeration order *)
-  && lres_beq (o_stage o) (o_bin_stage2 o).
+  && lres_beq (o_stage o) (o_bin_stage2 o)
+  (* the stage set is drawn from the installed packages: the loader's view of the database is the database *)
+  && spec_loader c o.
 
 (* ------------------------------------------------------------------ well-formedness *)
 Definition is_perm_ids (n : nat) (l : list N) : bool :=
@@ -496,6 +536,24 @@ Fixpoint all_tied (vdb : list pkg) (ts : list (list (option bytes))) : bool :=
   end.
 Definition texts_ok (c : case) : bool := all_tied (c_vdb c) (c_texts c).
 
+(* ---- the name and the slot key of every package are the PMS readings of what is on disk (round 5b)
+        PF = name "-" version with version matching the PMS 3.2 version syntax (Proofs/C05L.v: pf_split_unique,
+        that determines the name); slot key = the comparable form of the SLOT text (white space trimmed) before
+        the first "/" (PMS 7.2/8.3.3: SLOT = slot[/sub-slot]).  The harness computes both from its own input;
+        a harness that splits differently puts the case outside wf instead of moving model and predicate. *)
+Definition c_hy : ascii := nb 45.
+Definition name_tied (p : pkg) : bool :=
+  let nm := base_name p in
+  prefixb (nm ++ [c_hy]) (p_pf p) && PMSGrammar.is_pms_version (skipn (S (length nm)) (p_pf p)).
+Definition slot_key (text : bytes) : bytes := AtomMatch.slot_comparable (fst (split2 c_sl (trim text))).
+Fixpoint all_slots_tied (vdb : list pkg) (ss : list bytes) : bool :=
+  match vdb, ss with
+  | [], [] => true
+  | p :: r, s :: r' => beq (p_slot p) (slot_key s) && fields_exact s && all_slots_tied r r'
+  | _, _ => false
+  end.
+Definition db_tied (c : case) : bool := forallb name_tied (c_vdb c) && all_slots_tied (c_vdb c) (c_slots c).
+
 Definition wf_base (c : case) : bool :=
   let n := length (c_vdb c) in
   c_complete c
@@ -510,7 +568,7 @@ Definition wf_base (c : case) : bool :=
   && forallb (wf_dict n (c_vdb c)) (c_dict c)
   (* the parent chain is finite (no cycle) as far as it can be followed *)
   && match model_sys c with RDiverge => false | _ => true end.
-Definition wf (c : case) : bool := texts_ok c && wf_base c.
+Definition wf (c : case) : bool := texts_ok c && db_tied c && wf_base c.
 
 (* known-finding classes (see KNOWN_FINDINGS).
    1: a package that can be selected has, active under its USE flags, an any-of / exactly-one-of /
